@@ -131,6 +131,7 @@ def doc_features(doc: dict) -> dict:
         "stream_with_other_2xx": stream_other,
         "tag_spelling_variants": any(len(v) > 1 for v in tagsets.values()),
         "dup_params": dup_params,
+        "prop_named_like_temporal_type": bool(prop_names & {"date", "datetime"}),
         "shadowing_props": bool(prop_names & {"field", "date", "datetime", "dataclass", "List", "Any", "Dict"}),
     }
 
@@ -190,6 +191,8 @@ def classify(case: dict, res: dict) -> list[tuple[str | None, str, dict]]:
         elif kind == "import" and feats["mutual_refs"] and ("partially initialized module" in msg or "circular import" in msg
                                                                or "No module named" in msg or "cannot import name" in msg):
             fid = "F2"
+        elif kind == "import" and feats.get("prop_named_like_temporal_type") and "unsupported operand type(s) for |" in msg:
+            fid = "F67"
         # F4 (a parameter declared at path level and again at operation level -> duplicate argument) and F5 (a property `field` shadowing
         # dataclasses.field) are repaired: `dup_params` / `shadowing_props` stay in the features for the record, a recurrence is a violation
         out.append((fid, f"{kind} {where}: {msg}", {"kind": kind, "where": where, "msg": msg, "features": feats}))
@@ -346,6 +349,10 @@ def witness_doc(fid: str) -> dict:
         base["components"]["schemas"] = {"Level": {"type": "string", "enum": ["N/A", "low"], "default": "N/A"},
                                          "Rec": {"type": "object", "properties": {"level": {"$ref": "#/components/schemas/Level"}}}}
         base["paths"]["/x"]["get"]["responses"]["200"]["content"] = {"application/json": {"schema": {"$ref": "#/components/schemas/Rec"}}}
+    if fid == "F67":
+        base["components"]["schemas"] = {"Event": {"type": "object", "required": ["start"], "properties": {
+            "start": {"type": "string", "format": "date"}, "date": {"type": "string", "format": "date"}, "end": {"type": "string", "format": "date"}}}}
+        base["paths"]["/x"]["get"]["responses"]["200"]["content"] = {"application/json": {"schema": {"$ref": "#/components/schemas/Event"}}}
     if fid == "F5":
         base["components"]["schemas"] = {"Rec": {"type": "object", "properties": {"field": {"type": "string"}, "tags": {"type": "array", "items": {"type": "string"}}}}}
         base["paths"]["/x"]["get"]["responses"]["200"]["content"] = {"application/json": {"schema": {"$ref": "#/components/schemas/Rec"}}}
